@@ -25,13 +25,13 @@ def poolReads {R} (members : List (List R)) : List R := members.flatten
 
 /-- `mset.unique_idx`: mark the first occurrence of every distinct row. (The code removes a row from the set of
     all rows when it first meets it; "not met before" is the same predicate.) -/
-def uniqueFirst {R} [DecidableEq R] : List R → List R → List R
+def firstOccurrences {R} [DecidableEq R] : List R → List R → List R
   | _, [] => []
-  | seen, x :: xs => if x ∈ seen then uniqueFirst seen xs else x :: uniqueFirst (x :: seen) xs
+  | seen, x :: xs => if x ∈ seen then firstOccurrences seen xs else x :: firstOccurrences (x :: seen) xs
 
 /-- `mset.unique_counts`: the distinct rows in order of first occurrence, each with its count -/
 def dedupCounts {R} [DecidableEq R] (l : List R) : List (R × Nat) :=
-  (uniqueFirst [] l).map (fun r => (r, l.count r))
+  (firstOccurrences [] l).map (fun r => (r, l.count r))
 
 /-- reads of a (possibly pooled) sample as the samplers receive them -/
 def encodeSample {R} [DecidableEq R] (members : List (List R)) : List (R × Nat) :=
